@@ -173,6 +173,9 @@ impl<'a> PrettyPrinter<'a> {
         self.convert_flow_like(ctx, math_frac.to_untyped(), |ctx, node| {
             if let Some(expr) = node.cast::<Expr>() {
                 FlowItem::spaced(self.convert_expr(ctx, expr))
+            } else if node.kind() == SyntaxKind::Semicolon {
+                // The terminator of a hashed expression must stay attached to it.
+                FlowItem::tight_spaced(self.convert_trivia_untyped(node))
             } else if node.kind() != SyntaxKind::Space {
                 FlowItem::spaced(self.convert_trivia_untyped(node))
             } else {
